@@ -1544,3 +1544,466 @@ Proof.
   - eapply Forall_impl; [|exact IH]. cbn. intros x (ess' & HR & HS). exists ess'. split; [assumption|]. eapply sub_trans; eauto.
 Qed.
 End History.
+
+(** * masking keeps the partition: group metadata rebuilt by the masked genotyping protocols *)
+Definition filter_mask {A} (m : list bool) (l : list A) : list A := map snd (filter fst (combine m l)).
+Lemma filter_mask_app {A} m0 m1 (l0 l1 : list A) : length m0 = length l0 ->
+  filter_mask (m0 ++ m1) (l0 ++ l1) = filter_mask m0 l0 ++ filter_mask m1 l1.
+Proof.
+  unfold filter_mask. revert l0; induction m0 as [|b m0 IH]; intros [|x l0] H; cbn in H; try lia; [reflexivity|].
+  cbn. destruct b; cbn; rewrite IH by lia; reflexivity.
+Qed.
+Definition count_true (m : list bool) : nat := length (filter (fun b => b) m).
+Lemma filter_mask_repeat {A} (x : A) m : filter_mask m (repeat x (length m)) = repeat x (count_true m).
+Proof. unfold filter_mask, count_true. induction m as [|b m IH]; cbn; [reflexivity|]. destruct b; cbn; now rewrite IH. Qed.
+
+Lemma mask_positions_off m : forall off, map fst (filter snd (combine (seq off (length m)) m)) = map (fun p => (off + p)%nat) (mask_positions m).
+Proof.
+  unfold mask_positions. induction m as [|b m IH]; intros off; [reflexivity|].
+  destruct b; cbn [length seq combine filter snd map fst]; rewrite (IH (S off)), (IH 1%nat);
+    set (M := map fst (filter snd (combine (seq 0 (length m)) m))).
+  - f_equal; [lia|]. rewrite map_map. apply map_ext. intros; lia.
+  - rewrite map_map. apply map_ext. intros; lia.
+Qed.
+Lemma mask_positions_cons b m : mask_positions (b :: m) = (if b then [0%nat] else []) ++ map S (mask_positions m).
+Proof.
+  unfold mask_positions at 1. cbn [length seq combine filter]. destruct b; cbn [snd filter map fst app].
+  - f_equal. rewrite (mask_positions_off m 1). reflexivity.
+  - rewrite (mask_positions_off m 1). reflexivity.
+Qed.
+Lemma mask_positions_app m0 m1 : mask_positions (m0 ++ m1) = mask_positions m0 ++ map (fun p => (length m0 + p)%nat) (mask_positions m1).
+Proof.
+  induction m0 as [|b m0 IH]; [cbn; now rewrite map_id|].
+  change ((b :: m0) ++ m1) with (b :: (m0 ++ m1)). rewrite !mask_positions_cons, IH, map_app, map_map, app_assoc. reflexivity.
+Qed.
+Lemma mask_positions_lt m : Forall (fun p => (p < length m)%nat) (mask_positions m).
+Proof.
+  unfold mask_positions. apply Forall_forall. intros p H. apply in_map_iff in H as ([q b] & <- & H). apply filter_In in H as [H _].
+  apply in_combine_l in H. apply in_seq in H. cbn. lia.
+Qed.
+Lemma mask_positions_count m : length (mask_positions m) = count_true m.
+Proof. induction m as [|b m IH]; [reflexivity|]. rewrite mask_positions_cons, app_length, map_length, IH. unfold count_true. destruct b; reflexivity. Qed.
+Lemma pick_mask_positions {A} m (l : list A) : length m = length l -> pick (mask_positions m) l = filter_mask m l.
+Proof.
+  revert l; induction m as [|b m IH]; intros [|x l] H; cbn in H; try lia; [reflexivity|].
+  rewrite mask_positions_cons, pick_app. unfold filter_mask. cbn [combine filter].
+  assert (E : pick (map S (mask_positions m)) (x :: l) = pick (mask_positions m) l).
+  { unfold pick. rewrite flat_map_concat_map, map_map, <- flat_map_concat_map. reflexivity. }
+  rewrite E, IH by lia. destruct b; reflexivity.
+Qed.
+
+(** counting kept positions inside a window *)
+Definition in_win (a b : Z) (p : nat) : bool := (a <=? Z.of_nat p) && (Z.of_nat p <? b).
+Lemma count_win_all off n (ps : list nat) : Forall (fun p => (off <= p < off + n)%nat) ps ->
+  count_if (in_win (Z.of_nat off) (Z.of_nat off + Z.of_nat n)) ps = Z.of_nat (length ps).
+Proof.
+  unfold count_if. intros H. f_equal. f_equal. induction H as [|p ps Hp _ IH]; [reflexivity|]. cbn.
+  unfold in_win at 1. replace (Z.of_nat off <=? Z.of_nat p) with true by (symmetry; apply Z.leb_le; lia).
+  replace (Z.of_nat p <? Z.of_nat off + Z.of_nat n) with true by (symmetry; apply Z.ltb_lt; lia). cbn. now rewrite IH.
+Qed.
+Lemma count_win_none a b (ps : list nat) : Forall (fun p => Z.of_nat p < a \/ b <= Z.of_nat p) ps -> count_if (in_win a b) ps = 0.
+Proof.
+  unfold count_if. intros H. replace (filter (in_win a b) ps) with (@nil nat); [reflexivity|]. symmetry.
+  induction H as [|p ps Hp _ IH]; [reflexivity|]. cbn. unfold in_win at 1.
+  destruct (a <=? Z.of_nat p) eqn:E1; destruct (Z.of_nat p <? b) eqn:E2; cbn; try exact IH.
+  apply Z.leb_le in E1. apply Z.ltb_lt in E2. lia.
+Qed.
+Lemma count_if_app {A} (f : A -> bool) l1 l2 : count_if f (l1 ++ l2) = count_if f l1 + count_if f l2.
+Proof. unfold count_if. rewrite filter_app, app_length. lia. Qed.
+
+(** positive part of the per-run counts *)
+Definition keep_pos (names lens : list Z) : list Z * list Z :=
+  (map snd (filter (fun q => 0 <? fst q) (combine lens names)), filter (fun x => 0 <? x) lens).
+
+Lemma rle_expand_cons x n names lens : rle_expand (x :: names) (n :: lens) = repeat x (Z.to_nat n) ++ rle_expand names lens.
+Proof. reflexivity. Qed.
+
+(** core: filtering a run-length-expanded list by a mask gives the expansion of the per-run kept counts *)
+Lemma masked_runs : forall names lens off m,
+  length lens = length names -> Forall (fun x => 0 < x) lens -> length m = length (rle_expand names lens) ->
+  let kept := map (fun p => (off + p)%nat) (mask_positions m) in
+  let st := prefix_sums (Z.of_nat off) lens in
+  let ln := map2 (fun a b => count_if (in_win a b) kept) st (map2 Z.add st lens) in
+  filter_mask m (rle_expand names lens) = rle_expand (fst (keep_pos names ln)) (snd (keep_pos names ln)).
+Proof.
+  induction names as [|x names IH]; intros [|n lens] off m Hl Hp Hm; cbn in Hl; try lia.
+  - cbn in Hm. destruct m; [reflexivity|discriminate].
+  - inversion Hp as [|? ? Hn Hp']; subst. rewrite rle_expand_cons in *. rewrite app_length, repeat_length in Hm.
+    remember (Z.to_nat n) as k eqn:Ek.
+    assert (Hsplit : exists m0 m1, m = m0 ++ m1 /\ length m0 = k /\ length m1 = length (rle_expand names lens)).
+    { exists (firstn k m), (skipn k m). split; [symmetry; apply firstn_skipn|]. rewrite firstn_length, skipn_length. lia. }
+    destruct Hsplit as (m0 & m1 & -> & L0 & L1).
+    intros kept st ln.
+    rewrite filter_mask_app by (now rewrite repeat_length).
+    rewrite <- L0 at 1. rewrite filter_mask_repeat.
+    specialize (IH lens (off + k)%nat m1 ltac:(lia) Hp' L1). cbn zeta in IH. rewrite IH. clear IH.
+    (* the kept positions split into those of the first run and the shifted rest *)
+    assert (Hk : kept = map (fun p => (off + p)%nat) (mask_positions m0) ++ map (fun p => (off + k + p)%nat) (mask_positions m1)).
+    { unfold kept. rewrite mask_positions_app, map_app, map_map, L0. f_equal. apply map_ext. intros; lia. }
+    set (kept0 := map (fun p => (off + p)%nat) (mask_positions m0)) in *.
+    set (kept1 := map (fun p => (off + k + p)%nat) (mask_positions m1)) in *.
+    assert (B0 : Forall (fun p => (off <= p < off + k)%nat) kept0).
+    { unfold kept0. apply Forall_forall. intros p H. apply in_map_iff in H as (q & <- & H).
+      pose proof (mask_positions_lt m0) as F. rewrite Forall_forall in F. specialize (F q H). lia. }
+    assert (B1 : Forall (fun p => (off + k <= p)%nat) kept1).
+    { unfold kept1. apply Forall_forall. intros p H. apply in_map_iff in H as (q & <- & H). lia. }
+    assert (Zk : Z.of_nat k = n) by lia.
+    (* first run *)
+    assert (C0 : count_if (in_win (Z.of_nat off) (Z.of_nat off + n)) kept = Z.of_nat (count_true m0)).
+    { rewrite Hk, count_if_app, <- Zk, (count_win_all off k kept0 B0). unfold kept0. rewrite map_length, mask_positions_count.
+      rewrite count_win_none; [lia|]. eapply Forall_impl; [|exact B1]. cbn. intros p Hp0. right. lia. }
+    (* later runs: windows start at off + k *)
+    unfold ln, st. cbn [prefix_sums map2]. rewrite C0.
+    assert (Hrest : map2 (fun a b => count_if (in_win a b) kept) (prefix_sums (Z.of_nat off + n) lens) (map2 Z.add (prefix_sums (Z.of_nat off + n) lens) lens)
+                  = map2 (fun a b => count_if (in_win a b) kept1) (prefix_sums (Z.of_nat (off + k)) lens) (map2 Z.add (prefix_sums (Z.of_nat (off + k)) lens) lens)).
+    { replace (Z.of_nat (off + k)) with (Z.of_nat off + n) by lia.
+      assert (G : forall lens0 a0, Z.of_nat off + n <= a0 -> Forall (fun x => 0 < x) lens0 ->
+                  map2 (fun a b => count_if (in_win a b) kept) (prefix_sums a0 lens0) (map2 Z.add (prefix_sums a0 lens0) lens0)
+                  = map2 (fun a b => count_if (in_win a b) kept1) (prefix_sums a0 lens0) (map2 Z.add (prefix_sums a0 lens0) lens0)).
+      { induction lens0 as [|z lens0 IHl]; intros a0 Ha Hpos; [reflexivity|]. inversion Hpos; subst. cbn [prefix_sums map2]. f_equal.
+        - rewrite Hk, count_if_app. rewrite (count_win_none a0 (a0 + z) kept0); [lia|].
+          eapply Forall_impl; [|exact B0]. cbn. intros p Hp0. left. lia.
+        - apply IHl; [lia|assumption]. }
+      apply G; [lia|assumption]. }
+    rewrite Hrest. unfold keep_pos. cbn [combine filter map fst snd].
+    destruct (0 <? Z.of_nat (count_true m0)) eqn:E0.
+    + cbn [map snd fst filter]. rewrite rle_expand_cons, Nat2Z.id. reflexivity.
+    + apply Z.ltb_ge in E0. assert (count_true m0 = 0%nat) by lia. rewrite H. reflexivity.
+Qed.
+
+Lemma cumsum_spec l : cumsum l = map2 Z.add (prefix_sums 0 l) l.
+Proof.
+  unfold cumsum.
+  assert (G : forall l a pre, snd (fold_left (fun acc x => (fst acc + x, snd acc ++ [fst acc + x])) l (a, pre)) = pre ++ map2 Z.add (prefix_sums a l) l).
+  { intros l0. induction l0 as [|x t IH]; intros a pre; cbn; [now rewrite app_nil_r|]. rewrite IH, <- app_assoc. reflexivity. }
+  now rewrite G.
+Qed.
+Lemma map2_sub_add a l : map2 Z.sub (map2 Z.add (prefix_sums a l) l) l = prefix_sums a l.
+Proof. revert a; induction l as [|x t IH]; intros a; cbn; [reflexivity|]. rewrite IH. f_equal. lia. Qed.
+Lemma prefix_sums_length a l : length (prefix_sums a l) = length l.
+Proof. revert a; induction l as [|x t IH]; intros a; cbn; [reflexivity|]. now rewrite IH. Qed.
+Lemma keep_pos_sorted names lens : StronglySorted Z.lt names -> StronglySorted Z.lt (fst (keep_pos names lens)).
+Proof.
+  unfold keep_pos; cbn [fst]. intros H. revert lens; induction H as [|x t HS IH Hx]; intros [|n lens]; cbn; try constructor.
+  destruct (0 <? n); cbn; [|apply IH]. constructor; [apply IH|].
+  apply Forall_forall. intros y Hy. apply in_map_iff in Hy as ([c z] & <- & Hy). apply filter_In in Hy as [Hy _].
+  apply in_combine_r in Hy. rewrite Forall_forall in Hx. now apply Hx.
+Qed.
+Lemma keep_pos_length names lens : length lens = length names -> length (snd (keep_pos names lens)) = length (fst (keep_pos names lens)).
+Proof.
+  unfold keep_pos; cbn [fst snd]. revert lens; induction names as [|x t IH]; intros [|n lens] H; cbn in H; try lia; [reflexivity|].
+  cbn [combine filter fst]. destruct (0 <? n); cbn [map length]; rewrite IH by lia; reflexivity.
+Qed.
+Lemma keep_pos_pos names lens : Forall (fun x => 0 < x) (snd (keep_pos names lens)).
+Proof. unfold keep_pos; cbn [snd]. apply Forall_forall. intros x H. apply filter_In in H as [_ H]. now apply Z.ltb_lt. Qed.
+Lemma mask_positions_all n : mask_positions (repeat true n) = seq 0 n.
+Proof.
+  induction n as [|n IH]; [reflexivity|]. cbn [repeat]. rewrite mask_positions_cons, IH. cbn. f_equal. now rewrite seq_shift.
+Qed.
+
+(** masking a grouped axis: the rebuilt metadata are a true partition of the kept group labels *)
+Theorem mask_meta_partition (a : axst) (labs' : list (option larr)) (l : larr) nm ix sp ln (m : list bool) g :
+  m_name a = Some nm -> m_stix a = Some ix -> m_spix a = Some sp -> m_len a = Some ln ->
+  partition_ok (unsome l) nm ix sp ln -> length m = length l -> nth g labs' None = Some (pick (mask_positions m) l) ->
+  grouped_ok (mask_meta (with_labs a labs') (mask_positions m)) g.
+Proof.
+  intros H1 H2 H3 H4 P Hm Hl. unfold mask_meta, with_labs; cbn [m_name m_stix m_spix m_len labs]. rewrite H1, H2, H3, H4.
+  unfold grouped_ok; cbn [labs m_name m_stix m_spix m_len]. rewrite Hl.
+  destruct P as [Pinc Plen Ppos Pst Psp Plab].
+  set (kept := mask_positions m).
+  set (ln2 := map2 (fun a0 b0 => count_if (fun p => (a0 <=? Z.of_nat p) && (Z.of_nat p <? b0)) kept) ix sp).
+  assert (Hln2 : length ln2 = length nm).
+  { unfold ln2. rewrite map2_length, Psp, map2_length, Pst, prefix_sums_length. lia. }
+  eexists _, _, _, _. split; [reflexivity|]. split; [reflexivity|]. split; [reflexivity|]. split; [reflexivity|].
+  change (map snd (filter (fun q => 0 <? fst q) (combine ln2 nm))) with (fst (keep_pos nm ln2)).
+  change (filter (fun x => 0 <? x) ln2) with (snd (keep_pos nm ln2)).
+  split.
+  - now apply keep_pos_sorted.
+  - now apply keep_pos_length.
+  - apply keep_pos_pos.
+  - rewrite cumsum_spec. apply map2_sub_add.
+  - rewrite cumsum_spec, map2_sub_add. reflexivity.
+  - unfold unsome at 1. rewrite <- pick_map. fold (unsome l). unfold kept.
+    rewrite pick_mask_positions by (unfold unsome; now rewrite map_length).
+    rewrite Plab.
+    pose proof (masked_runs nm ln 0%nat m Plen Ppos ltac:(rewrite <- Plab; unfold unsome; now rewrite map_length)) as MR.
+    cbn zeta in MR. rewrite MR. clear MR.
+    assert (E : map (fun p => (0 + p)%nat) (mask_positions m) = mask_positions m) by (rewrite <- (map_id (mask_positions m)) at 2; reflexivity).
+    rewrite E. change (Z.of_nat 0) with 0. rewrite <- Pst, <- Psp. reflexivity.
+Qed.
+
+Lemma mapM_id_map_some {A} (L : list A) : mapM (fun x => x) (map Some L) = Some L.
+Proof. induction L as [|x t IH]; cbn; [reflexivity|]. now rewrite IH. Qed.
+Lemma mapM_id_nth {A} (L : list (option (option A))) vl g : mapM (fun x => x) L = Some vl ->
+  nth g vl None = match nth g L (Some None) with Some o => o | None => None end.
+Proof.
+  revert vl g; induction L as [|o L IH]; intros vl g H; cbn in H.
+  - inversion H. destruct g; reflexivity.
+  - destruct o as [o'|]; [|discriminate]. destruct (mapM (fun x => x) L) as [r|] eqn:E; [|discriminate]. inversion H; subst vl.
+    destruct g; cbn; [reflexivity|]. now apply IH.
+Qed.
+Lemma is_grouped_ungrouped a : is_grouped (ungrouped a) = false.
+Proof. reflexivity. Qed.
+
+(** the three genotyping protocols keep the invariant "grouped => true partition" (s: a phased genotype matrix whose
+    variant group labels fit the variant axis) *)
+Theorem genotype_meta_inv p s s' : length (axes s) = 3%nat ->
+  (forall l, nth 0 (labs (ax_of s 2)) None = Some l -> length l = nth 2 (shape s) O) ->
+  meta_ok cDensePhasedGenotypeMatrix s -> op_genotype p s = OK s' -> meta_ok (result_cls p) s'.
+Proof.
+  intros Hax Hlen M H.
+  assert (Mt : is_grouped (ax_of s 1) = false \/ grouped_ok (ax_of s 1) 1) by (apply M; [lia|reflexivity]).
+  assert (Mv : is_grouped (ax_of s 2) = false \/ grouped_ok (ax_of s 2) 0) by (apply M; [lia|reflexivity]).
+  (* it suffices to know the variant record of the result *)
+  assert (Fin : forall c' sh t (axl : list axst) vr',
+            (is_grouped vr' = false \/ grouped_ok vr' 0) ->
+            (c' = cDenseGenotypeMatrix /\ axl = [ax_of s 1; vr'] \/ c' = cDensePhasedGenotypeMatrix /\ axl = [ax_of s 0; ax_of s 1; vr']) ->
+            construct c' sh t axl = OK s' -> meta_ok c' s').
+  { intros c' sh t axl vr' Hv Hc Hk. apply construct_ok in Hk. subst s'. intros k g Hk Hg. cbn in Hk.
+    destruct Hc as [[-> ->]|[-> ->]]; cbn in Hk.
+    - destruct k as [|[|k]]; try lia; cbn in Hg; inversion Hg; subst; [exact Mt|exact Hv].
+    - destruct k as [|[|[|k]]]; try lia; cbn in Hg; try discriminate; inversion Hg; subst; [exact Mt|exact Hv]. }
+  unfold op_genotype in H. destruct p as [|inv|inv].
+  - eapply (Fin _ _ _ _ (ax_of s 2)); [exact Mv|left; split; reflexivity|exact H].
+  - (* masked phased *)
+    cbn [result_cls].
+    set (vr := ax_of s 2) in *. set (nv := nth 2 (shape s) O) in *.
+    destruct (nth 8 (labs vr) None) as [mk|] eqn:Emask.
+    + set (m := map (fun o => if inv then negb (lab_true o) else lab_true o) mk) in *.
+      destruct (mapM (fun x => x) _) as [vl|] eqn:Evl; [|discriminate].
+      destruct (Nat.eqb (length mk) nv); [|discriminate].
+      eapply Fin; [|right; split; reflexivity|exact H].
+      destruct (is_grouped vr) eqn:Eg; [|now left]. right.
+      destruct Mv as [Mv|Mv]; [congruence|]. unfold grouped_ok in Mv.
+      destruct (nth 0 (labs vr) None) as [l|] eqn:El; [|contradiction].
+      destruct Mv as (nm & ix & sp & ln & N1 & N2 & N3 & N4 & P).
+      pose proof (mapM_id_nth _ vl 0%nat Evl) as Hn.
+      assert (Hn0 : nth 0 (map (fun o => match o with Some l0 => if Nat.eqb (length l0) (length mk) then Some (Some (pick (mask_positions m) l0)) else None
+                                                   | None => Some None end) (labs vr)) (Some None)
+                    = if Nat.eqb (length l) (length mk) then Some (Some (pick (mask_positions m) l)) else None).
+      { destruct (labs vr) as [|o0 rest]; cbn in El; [discriminate|]. cbn. now rewrite El. }
+      rewrite Hn0 in Hn. destruct (Nat.eqb (length l) (length mk)) eqn:Elen; [|].
+      * apply Nat.eqb_eq in Elen. eapply mask_meta_partition; eauto. unfold m. now rewrite map_length.
+      * (* the mapM would have failed *)
+        exfalso. clear -Evl El Elen. destruct (labs vr) as [|o0 rest]; cbn in El; [discriminate|]. subst o0. cbn in Evl. rewrite Elen in Evl. discriminate.
+    + rewrite mapM_id_map_some in H. cbn [Nat.eqb] in H.
+      eapply Fin; [|right; split; reflexivity|exact H].
+      destruct (is_grouped vr) eqn:Eg; [|now left]. right.
+      destruct Mv as [Mv|Mv]; [congruence|]. unfold grouped_ok in Mv.
+      destruct (nth 0 (labs vr) None) as [l|] eqn:El; [|contradiction].
+      destruct Mv as (nm & ix & sp & ln & N1 & N2 & N3 & N4 & P).
+      pose proof (Hlen l eq_refl) as Hl. fold nv in Hl.
+      rewrite <- (mask_positions_all nv). eapply mask_meta_partition; eauto.
+      * now rewrite repeat_length.
+      * rewrite mask_positions_all, El. f_equal. rewrite <- Hl. symmetry. apply pick_seq_all.
+  - (* masked unphased *)
+    cbn [result_cls].
+    set (vr := ax_of s 2) in *. set (nv := nth 2 (shape s) O) in *.
+    destruct (nth 8 (labs vr) None) as [mk|] eqn:Emask.
+    + set (m := map (fun o => if inv then negb (lab_true o) else lab_true o) mk) in *.
+      destruct (mapM (fun x => x) _) as [vl|] eqn:Evl; [|discriminate].
+      destruct (Nat.eqb (length mk) nv); [|discriminate].
+      eapply Fin; [|left; split; reflexivity|exact H].
+      destruct (is_grouped vr) eqn:Eg; [|now left]. right.
+      destruct Mv as [Mv|Mv]; [congruence|]. unfold grouped_ok in Mv.
+      destruct (nth 0 (labs vr) None) as [l|] eqn:El; [|contradiction].
+      destruct Mv as (nm & ix & sp & ln & N1 & N2 & N3 & N4 & P).
+      pose proof (mapM_id_nth _ vl 0%nat Evl) as Hn.
+      assert (Hn0 : nth 0 (map (fun o => match o with Some l0 => if Nat.eqb (length l0) (length mk) then Some (Some (pick (mask_positions m) l0)) else None
+                                                   | None => Some None end) (labs vr)) (Some None)
+                    = if Nat.eqb (length l) (length mk) then Some (Some (pick (mask_positions m) l)) else None).
+      { destruct (labs vr) as [|o0 rest]; cbn in El; [discriminate|]. cbn. now rewrite El. }
+      rewrite Hn0 in Hn. destruct (Nat.eqb (length l) (length mk)) eqn:Elen; [|].
+      * apply Nat.eqb_eq in Elen. eapply mask_meta_partition; eauto. unfold m. now rewrite map_length.
+      * exfalso. clear -Evl El Elen. destruct (labs vr) as [|o0 rest]; cbn in El; [discriminate|]. subst o0. cbn in Evl. rewrite Elen in Evl. discriminate.
+    + rewrite mapM_id_map_some in H. cbn [Nat.eqb] in H.
+      eapply Fin; [|left; split; reflexivity|exact H].
+      destruct (is_grouped vr) eqn:Eg; [|now left]. right.
+      destruct Mv as [Mv|Mv]; [congruence|]. unfold grouped_ok in Mv.
+      destruct (nth 0 (labs vr) None) as [l|] eqn:El; [|contradiction].
+      destruct Mv as (nm & ix & sp & ln & N1 & N2 & N3 & N4 & P).
+      pose proof (Hlen l eq_refl) as Hl. fold nv in Hl.
+      rewrite <- (mask_positions_all nv). eapply mask_meta_partition; eauto.
+      * now rewrite repeat_length.
+      * rewrite mask_positions_all, El. f_equal. rewrite <- Hl. symmetry. apply pick_seq_all.
+Qed.
+
+(** * concat along an axis that occupies one array axis *)
+Section Concat.
+Context {ent : Type}.
+Variable val : list ent -> Z.
+Variable lbl : nat -> nat -> ent -> lab.
+Notation Rep := (Rep val lbl).
+
+(** an operand of concat: a matrix of the same class over the same entities on the other axes, entities [us] on the
+    operated one; each of its label arrays of that axis is the image of [us], or is absent *)
+Record RepCat (c : cls) (k : nat) (v : operand) (ess : list (list ent)) (us : list ent) : Prop := {
+  rc_shape : o_shape v = map (@length ent) (upd (taxis c k) us ess);
+  rc_data : o_data v = build (upd (taxis c k) us ess) val;
+  rc_k : (k < length (o_axes v))%nat;
+  rc_nf : length (labs (nth k (o_axes v) ax0)) = nfields (sch c k);
+  rc_labs : forall j l, nth_error (labs (nth k (o_axes v) ax0)) j = Some (Some l) -> l = map (lbl k j) us }.
+
+Lemma fold_cat_build a ess : (a < length ess)%nat -> forall (vus : list (operand * list ent)) xs,
+  Forall (fun vu => o_data (fst vu) = build (upd a (snd vu) ess) val) vus ->
+  fold_left (fun t v => t_cat a t (o_data v)) (map fst vus) (build (upd a xs ess) val)
+  = build (upd a (xs ++ concat (map snd vus)) ess) val.
+Proof.
+  intros Ha. induction vus as [|[v us] vus IH]; intros xs H; cbn.
+  - now rewrite app_nil_r.
+  - inversion H as [|? ? Hv Hr]; subst. cbn in Hv. rewrite Hv.
+    replace (build (upd a us ess) val) with (build (upd a us (upd a xs ess)) val) by now rewrite upd_upd.
+    rewrite t_cat_build by now rewrite upd_length. rewrite nth_upd_eq by assumption. rewrite upd_upd.
+    rewrite (IH (xs ++ us) Hr), <- app_assoc. reflexivity.
+Qed.
+
+Definition pair_ok (fill : bool) (g : ent -> lab) (p : option larr * list ent) : Prop :=
+  match fst p with Some l => l = map g (snd p) | None => fill = true -> forall e, In e (snd p) -> g e = None end.
+Lemma repeat_none_map (g : ent -> lab) es : (forall e, In e es -> g e = None) -> repeat None (length es) = map g es.
+Proof. induction es as [|e es IH]; intros H; cbn; [reflexivity|]. rewrite (H e (or_introl eq_refl)), IH; [reflexivity|]. intros e' He'. apply H. now right. Qed.
+
+Lemma cat_field_rep fill (g : ent -> lab) (pairs : list (option larr * list ent)) r :
+  Forall (pair_ok fill g) pairs ->
+  cat_field fill (map fst pairs) (map (fun p => length (snd p)) pairs) = OK r ->
+  match r with
+  | Some l => l = map g (concat (map snd pairs))
+  | None => Forall (fun p => fst p = None) pairs
+  end.
+Proof.
+  intros HP. unfold cat_field.
+  destruct (forallb _ (map fst pairs)) eqn:Eall.
+  - intros [= <-]. rewrite forallb_forall in Eall. apply Forall_forall. intros p Hp.
+    specialize (Eall (fst p) (in_map fst _ _ Hp)). destruct (fst p); [discriminate|reflexivity].
+  - destruct fill.
+    + intros [= <-]. clear Eall. induction HP as [|[a es] ps Hp _ IH]; cbn; [reflexivity|].
+      rewrite map_app. f_equal; [|exact IH]. unfold pair_ok in Hp; cbn in Hp. destruct a as [l|]; [exact Hp|].
+      apply repeat_none_map. now apply Hp.
+    + destruct (existsb _ (map fst pairs)) eqn:Eex; [discriminate|]. intros [= <-]. clear Eall.
+      induction HP as [|[a es] ps Hp _ IH]; cbn; [reflexivity|]. cbn in Eex. apply orb_false_iff in Eex as [E1 E2].
+      rewrite map_app. f_equal; [|now apply IH]. unfold pair_ok in Hp; cbn in Hp. destruct a as [l|]; [exact Hp|discriminate].
+Qed.
+
+Lemma cat_fields_spec (glab : nat -> ent -> lab) (ents : list (list ent)) : forall fills j0 (mats : list (list (option larr))) l',
+  length mats = length ents ->
+  (forall i, (i < length fills)%nat ->
+     Forall (pair_ok (nth i fills false) (glab (j0 + i)%nat)) (combine (map (fun m => nth (j0 + i) m None) mats) ents)) ->
+  cat_fields fills j0 mats (map (@length ent) ents) = OK l' ->
+  length l' = length fills /\
+  (forall i l, nth_error l' i = Some (Some l) -> l = map (glab (j0 + i)%nat) (concat ents)) /\
+  (forall i, (i < length fills)%nat -> nth i l' None = None -> Forall (fun m => nth (j0 + i) m None = None) mats).
+Proof.
+  induction fills as [|f fs IH]; intros j0 mats l' Hlen HV H; cbn in H.
+  - inversion H. split; [reflexivity|]. split; [intros [|i] l E; discriminate|intros i Hi; cbn in Hi; lia].
+  - destruct (cat_field f _ _) as [x|] eqn:Ef; [|discriminate]. cbn in H.
+    destruct (cat_fields fs (S j0) mats _) as [r|] eqn:Er; [|discriminate]. cbn in H. inversion H; subst l'.
+    assert (HVS : forall i, (i < length fs)%nat ->
+       Forall (pair_ok (nth i fs false) (glab (S j0 + i)%nat)) (combine (map (fun m => nth (S j0 + i) m None) mats) ents)).
+    { intros i Hi. specialize (HV (S i) ltac:(cbn; lia)). cbn [nth] in HV. replace (j0 + S i)%nat with (S j0 + i)%nat in HV by lia. exact HV. }
+    destruct (IH (S j0) mats r Hlen HVS Er) as (I1 & I2 & I3).
+    pose proof (HV 0%nat ltac:(cbn; lia)) as HV0. cbn [nth] in HV0. rewrite Nat.add_0_r in HV0.
+    set (arrs := map (fun m => nth j0 m None) mats) in *.
+    assert (Hlen2 : length arrs = length ents) by (unfold arrs; now rewrite map_length).
+    assert (E1 : map fst (combine arrs ents) = arrs).
+    { clear -Hlen2. revert ents Hlen2; induction arrs as [|a t IHa]; intros [|e es] H; cbn in *; try lia; [reflexivity|]. f_equal. apply IHa. lia. }
+    assert (E2 : map (fun p => length (snd p)) (combine arrs ents) = map (@length ent) ents).
+    { clear -Hlen2. revert ents Hlen2; induction arrs as [|a t IHa]; intros [|e es] H; cbn in *; try lia; [reflexivity|]. f_equal. apply IHa. lia. }
+    assert (E3 : map snd (combine arrs ents) = ents).
+    { clear -Hlen2. revert ents Hlen2; induction arrs as [|a t IHa]; intros [|e es] H; cbn in *; try lia; [reflexivity|]. f_equal. apply IHa. lia. }
+    pose proof (cat_field_rep f (glab j0) (combine arrs ents) x HV0) as CF. rewrite E1, E2 in CF. specialize (CF Ef). rewrite E3 in CF.
+    split; [cbn; now rewrite I1|]. split.
+    + intros [|i] l E; cbn in E.
+      * inversion E; subst x. rewrite Nat.add_0_r. exact CF.
+      * replace (j0 + S i)%nat with (S j0 + i)%nat by lia. now apply I2.
+    + intros [|i] Hi E; cbn in E, Hi.
+      * subst x. rewrite Nat.add_0_r. apply Forall_forall. intros m Hm.
+        rewrite Forall_forall in CF.
+        assert (Hin : In (nth j0 m None) arrs) by (unfold arrs; exact (in_map (fun m0 => nth j0 m0 None) mats m Hm)).
+        (* find the pair of m in the combination *)
+        apply In_nth with (d := None) in Hin as (q & Hq & Eq). rewrite Hlen2 in Hq.
+        assert (Hp : In (nth q arrs None, nth q ents []) (combine arrs ents)).
+        { rewrite <- (combine_nth arrs ents q None []) by exact Hlen2. apply nth_In. rewrite combine_length. lia. }
+        specialize (CF _ Hp). cbn in CF. congruence.
+      * replace (j0 + S i)%nat with (S j0 + i)%nat by lia. apply I3; [lia|assumption].
+Qed.
+
+Lemma upd_nth_same {A} a (l : list A) d : (a < length l)%nat -> upd a (nth a l d) l = l.
+Proof.
+  revert l; induction a as [|a IH]; intros [|x l] H; cbn in H; try lia; [reflexivity|].
+  change (x :: upd a (nth a l d) l = x :: l). f_equal. apply IH. lia.
+Qed.
+Lemma fold_add_lengths (ls : list (list ent)) n : fold_left Nat.add (map (@length ent) ls) n = (n + length (concat ls))%nat.
+Proof. revert n; induction ls as [|l ls IH]; intros n; cbn; [lia|]. rewrite IH, app_length. lia. Qed.
+Lemma cat_fill_length kd : length (cat_fill (schema_of kd)) = nfields (schema_of kd).
+Proof. destruct kd; reflexivity. Qed.
+
+Theorem concat_refines c s k (vus : list (operand * list ent)) ess a s' :
+  wf_cls c -> Rep c s ess -> (k < length (axs c))%nat -> taxes c k = [a] ->
+  Forall (fun vu => RepCat c k (fst vu) ess (snd vu)) vus ->
+  (* a name array that some of the matrices lack is filled with None: their entities carry no name *)
+  (forall j, nth j (cat_fill (sch c k)) false = true ->
+     (nth j (labs (ax_of s k)) None = None -> forall e, In e (nth a ess []) -> lbl k j e = None) /\
+     Forall (fun vu => nth j (labs (nth k (o_axes (fst vu)) ax0)) None = None -> forall e, In e (snd vu) -> lbl k j e = None) vus) ->
+  op_concat c s k (map fst vus) = OK s' ->
+  Rep c s' (upd a (nth a ess [] ++ concat (map snd vus)) ess) /\ (drop_other c = false -> no_loss s s').
+Proof.
+  intros W R Hk Ht HV HF H. set (es := nth a ess []) in *.
+  pose proof (taxis_of_taxes c k a [] Ht) as Hta.
+  assert (Ha : (a < length ess)%nat) by (rewrite (r_nd _ _ _ _ _ R); apply (wf_lt c W k); rewrite Ht; now left).
+  unfold op_concat in H. rewrite Hta in H. destruct (forallb _ _); [|discriminate].
+  set (mats := labs (ax_of s k) :: map (fun v => labs (nth k (o_axes v) (ax_of s k))) (map fst vus)) in *.
+  set (ents := es :: map snd vus).
+  assert (Elens : nth a (shape s) O :: map (fun v => nth a (o_shape v) O) (map fst vus) = map (@length ent) ents).
+  { unfold ents. cbn [map]. f_equal.
+    - rewrite (r_shape _ _ _ _ _ R). change O with (length (@nil ent)). now rewrite map_nth.
+    - rewrite !map_map. apply map_ext_in. intros [v us] Hin. rewrite Forall_forall in HV. specialize (HV _ Hin). cbn in *.
+      rewrite (rc_shape _ _ _ _ _ HV), Hta. change O with (length (@nil ent)). now rewrite map_nth, nth_upd_eq. }
+  rewrite Elens in H.
+  destruct (cat_fields _ _ mats _) as [l|] eqn:Ec; [|discriminate]. unfold bind in H.
+  assert (Hmats : mats = labs (ax_of s k) :: map (fun vu => labs (nth k (o_axes (fst vu)) ax0)) vus).
+  { unfold mats. f_equal. rewrite map_map. apply map_ext_in. intros [v us] Hin. rewrite Forall_forall in HV. specialize (HV _ Hin). cbn in *.
+    f_equal. apply nth_indep. apply (rc_k _ _ _ _ _ HV). }
+  assert (Hlm : length mats = length ents) by (unfold mats, ents; cbn; now rewrite !map_length).
+  assert (HVal : forall i, (i < length (cat_fill (sch c k)))%nat ->
+     Forall (pair_ok (nth i (cat_fill (sch c k)) false) (lbl k (0 + i)%nat)) (combine (map (fun m => nth (0 + i) m None) mats) ents)).
+  { intros i Hi. cbn [Nat.add]. rewrite Hmats. unfold ents. cbn [map combine]. constructor.
+    - unfold pair_ok; cbn. destruct (nth i (labs (ax_of s k)) None) as [l0|] eqn:E0.
+      + unfold es. rewrite <- Hta. apply (r_labs _ _ _ _ _ R k i l0 Hk). rewrite <- E0. apply nth_error_nth'.
+        destruct (Nat.lt_ge_cases i (length (labs (ax_of s k)))) as [?|Hge]; [assumption|]. rewrite nth_overflow in E0 by assumption. discriminate.
+      + intros Hf. exact (proj1 (HF i Hf) E0).
+    - rewrite map_map. clear -HV HF Hta.
+      assert (G : forall vus0, Forall (fun vu => RepCat c k (fst vu) ess (snd vu)) vus0 ->
+                  (nth i (cat_fill (sch c k)) false = true ->
+                   Forall (fun vu => nth i (labs (nth k (o_axes (fst vu)) ax0)) None = None -> forall e, In e (snd vu) -> lbl k i e = None) vus0) ->
+                  Forall (pair_ok (nth i (cat_fill (sch c k)) false) (lbl k i))
+                    (combine (map (fun x => nth i (labs (nth k (o_axes (fst x)) ax0)) None) vus0) (map snd vus0))).
+      { induction vus0 as [|[v us] r IHr]; intros HV0 HF0; cbn; constructor.
+        - inversion HV0 as [|? ? Hv _]; subst. cbn in Hv. unfold pair_ok; cbn.
+          destruct (nth i (labs (nth k (o_axes v) ax0)) None) as [l0|] eqn:E0.
+          + apply (rc_labs _ _ _ _ _ Hv i l0). rewrite <- E0. apply nth_error_nth'.
+            destruct (Nat.lt_ge_cases i (length (labs (nth k (o_axes v) ax0)))) as [?|Hge]; [assumption|]. rewrite nth_overflow in E0 by assumption. discriminate.
+          + intros Hf. specialize (HF0 Hf). inversion HF0; subst. cbn in *. auto.
+        - inversion HV0; subst. apply IHr; [assumption|]. intros Hf. specialize (HF0 Hf). now inversion HF0. }
+      apply G; [exact HV|]. intros Hf. exact (proj2 (HF i Hf)). }
+  destruct (cat_fields_spec (lbl k) ents (cat_fill (sch c k)) 0%nat mats l Hlm HVal Ec) as (C1 & C2 & C3).
+  assert (Ecc : concat ents = es ++ concat (map snd vus)) by reflexivity.
+  (* data and shape *)
+  assert (Edata : fold_left (fun t v => t_cat a t (o_data v)) (map fst vus) (data s) = build (upd a (es ++ concat (map snd vus)) ess) val).
+  { rewrite (r_data _ _ _ _ _ R). rewrite <- (upd_nth_same a ess [] Ha) at 1. fold es. apply fold_cat_build; [assumption|].
+    eapply Forall_impl; [|exact HV]. intros [v us] Hv. cbn in *. now rewrite (rc_data _ _ _ _ _ Hv), Hta. }
+  rewrite Edata in H.
+  assert (Eshape : upd a (fold_left Nat.add (map (@length ent) ents) O) (shape s) = map (@length ent) (upd a (es ++ concat (map snd vus)) ess)).
+  { rewrite fold_add_lengths, Ecc, (r_shape _ _ _ _ _ R), map_upd. reflexivity. }
+  rewrite Eshape in H.
+  replace (upd a (es ++ concat (map snd vus)) ess) with (upd_all (taxes c k) (es ++ concat (map snd vus)) ess) in * by (rewrite Ht; reflexivity).
+  refine (finish_new val lbl c s k ess (es ++ concat (map snd vus)) _ _ l s' W R Hk eq_refl eq_refl _ _ _ H).
+  - transitivity (length (cat_fill (sch c k))); [exact C1|]. rewrite (r_nf _ _ _ _ _ R k Hk). apply cat_fill_length.
+  - intros j l0 E. specialize (C2 j l0 E). now rewrite Ecc in C2.
+  - intros j l0 E.
+    assert (Hj : (j < length (cat_fill (sch c k)))%nat).
+    { unfold sch. rewrite cat_fill_length. fold (sch c k). rewrite <- (r_nf _ _ _ _ _ R k Hk). apply nth_error_Some. congruence. }
+    destruct (nth j l None) as [l2|] eqn:E2.
+    + exists l2. transitivity (Some (nth j l None)); [apply nth_error_nth'|now rewrite E2].
+      assert (Hll : length l = length (cat_fill (sch c k))) by exact C1. now rewrite Hll.
+    + specialize (C3 j Hj E2). inversion C3 as [|? ? Hself _]; subst. cbn in Hself. rewrite (nth_error_nth_eq _ _ _ None E) in Hself. discriminate.
+Qed.
+End Concat.
